@@ -46,7 +46,7 @@ SpecialForms == {"def", "let", "quote", "quasiquote", "quasiquoteexpand", "defma
 
 \* builtins that need the evaluator or the state
 StateNames == {"trace!", "throw", "atom", "deref", "reset!", "swap!", "apply", "map", "eval",
-               "update", "update-in", "raise!", "boom!", "boom-str!", "depth!", "future-call",
+               "update", "update-in", "raise!", "boom!", "boom-str!", "rawraise!", "rawboom!", "rawboom-str!", "depth!", "future-call",
                "sleep", "future-done?", "future-cancelled?", "future-cancel"}
 BuiltinNames == PureNames \cup StateNames
 
@@ -267,6 +267,10 @@ CallBuiltin(name, a, st) ==
     [] name = "boom!" -> R("err", ErrV("boom"), st)
     \* a Go panic with a NON-error value surfaces as that value thrown (binder convention)
     [] name = "boom-str!" -> R("thr", StrV("boom-str"), st)
+    \* the same three, registered as RAW host functions (types.Func, as nscore registers eval), not through the binder
+    [] name = "rawraise!" -> R("err", ErrV("raise"), st)
+    [] name = "rawboom!" -> R("err", ErrV("boom"), st)
+    [] name = "rawboom-str!" -> R("thr", StrV("boom-str"), st)
     [] name = "atom" -> IF n # 1 THEN R("err", ErrV("builtin"), st)
                         ELSE R("val", AtomV(Len(st.atoms) + 1), [st EXCEPT !.atoms = Append(@, a[1])])
     [] name = "deref" -> IF n # 1 THEN R("err", ErrV("builtin"), st)
